@@ -240,7 +240,7 @@ def run(ck):
         ck.witness("C02:float-formatting:" + b[0], "the real float formatter breaks hypothesis %s of C02_valid: %s" % (b[0], b),
                    input={"float": b[1]}, observed=b)
     # ---- the property on the real code
-    cases = conforming_cases(ck, L, G, per_type=ck.n(2, 6), embed_per_type=ck.n(1, 4), n_docs=ck.n(25, 200))
+    cases = conforming_cases(ck, L, G, per_type=ck.n(2, 12), embed_per_type=ck.n(1, 8), n_docs=ck.n(25, 400))
     rng = ck.rng
     if not iok:
         # steer the generator to the classes named by the broken agreement obligations (and their subclasses)
@@ -301,7 +301,7 @@ def run(ck):
         if not gdsgen.has_bad_float(r["obj"]) and '"raw": ["' not in json.dumps(r["obj"]):
             ccases.append((r["obj"], True, cs["role"]))
     # violated trees must not conform (the C03 generator, one per facet kind and depth)
-    vc = c03.property_cases(ck, L, G, depths=(0, 1, 2), per=1, limit=ck.n(120, 1200))
+    vc = c03.property_cases(ck, L, G, depths=(0, 1, 2), per=1, limit=ck.n(120, 3000))
     vres = ck.impl("c02_impl.py", {"order": order, "cases": vc, "want": ["rec", "text", "xml"]}, timeout=1800)["results"]
     for cs, r in zip(vc, vres):
         if "obj" not in r or "lx" not in r or not r["lx"]["wellformed"] or gdsgen.has_bad_float(r["obj"]):
